@@ -266,11 +266,14 @@ func (commander *Commander) Close() {
 	commander.running.Wait()
 }
 
-func (commander *Commander) chainLog(log *ledger.Log) *ledger.ChainedLog {
+// chainLog chains the log and hands it to the batcher in one critical section,
+// so that logs reach the store in the order of their ids.
+func (commander *Commander) chainLog(log *ledger.Log, onPersisted func()) *ledger.ChainedLog {
 	commander.mu.Lock()
 	defer commander.mu.Unlock()
 
 	commander.lastLog = log.ChainLog(commander.lastLog)
+	commander.Append(commander.lastLog, onPersisted)
 	return commander.lastLog
 }
 
